@@ -7,7 +7,7 @@
     atomicity is one append action (a single command, or a whole MULTI…EXEC block).  The model
     produces the actions of a round in list order; theorems that depend on the order quantify over
     every permutation of the actions ([round_perm]).  The servers are a function from (command, how
-    many times this command was sent before) to the reply: a reply is the reply *to a command*.
+    many times this node received this command before) to the reply: a reply is the reply *to a command*.
     The expiry recovery inside [doretry] is the one of Retry.v ([recover_loop]) and is not repeated.
     Definitions only. *)
 From Coq Require Import List Arith NArith ZArith Bool.
@@ -113,17 +113,18 @@ Definition pick_multi (t : table) (send_to_replicas : bool) (nsel : nat -> Z) (f
 Definition ok_val : N := 1%N.          (* the payload id of "+OK" *)
 Definition is_ok (r : reply) : bool := match r with RVal v => (v =? ok_val)%N | _ => false end.
 
-(** the reply to command [c] when it is sent for the k-th time (k from 0) *)
-Definition servers := bcmd -> nat -> reply.
-Definition counts := N -> nat.
-Definition cnt_inc (cn : counts) (id : N) : counts := fun x => if (x =? id)%N then S (cn x) else cn x.
+(** the reply of node [a] to command [c] when it receives it for the k-th time (k from 0) *)
+Definition servers := bcmd -> addr -> nat -> reply.
+Definition counts := N -> addr -> nat.
+Definition cnt_inc (cn : counts) (id : N) (a : addr) : counts :=
+  fun x b => if (x =? id)%N && addr_eqb a b then S (cn x b) else cn x b.
 
-Fixpoint exchange_on (srv : servers) (cn : counts) (ps : list ipair) : list reply * counts :=
+Fixpoint exchange_on (srv : servers) (a : addr) (cn : counts) (ps : list ipair) : list reply * counts :=
   match ps with
   | [] => ([], cn)
   | (_, c) :: r =>
-    let rp := srv c (cn (b_id c)) in
-    let '(rs, cn') := exchange_on srv (cnt_inc cn (b_id c)) r in
+    let rp := srv c a (cn (b_id c) a) in
+    let '(rs, cn') := exchange_on srv a (cnt_inc cn (b_id c) a) r in
     (rp :: rs, cn')
   end.
 
@@ -181,13 +182,16 @@ Definition dstep (pol : policy) (cc : addr) (hasinit : bool) (attempts : nat) (f
     | ModeNone => st1
     | mode =>
       let is_retry := match mode with ModeRetry => true | _ => false end in
-      if is_retry && negb (p_retry pol && b_retryable cm) then st1
+      let delay := if is_retry then p_delay pol attempts r else -1 in
+      if is_retry && (negb (p_retry pol && b_retryable cm) || (delay <? 0)) then st1
       else
-        let delay := if is_retry then p_delay pol attempts r else -1 in
         let nc := match mode with ModeMove a | ModeAsk a => a | _ => cc end in
         let ask := match mode with ModeAsk _ => true | _ => false end in
         let rescan := hasinit && (d_ei st <? Z.of_nat i) in
-        let mi := if rescan then scan_down cs i else d_mi st in
+        (* a redirected EXEC closes the block that starts at the previous MULTI: the scan starts one below *)
+        let mi := if rescan then
+                    (if is_exec cm then match i with O => -1 | S j => scan_down cs j end else scan_down cs i)
+                  else d_mi st in
         let ei := if rescan then scan_up cs i else d_ei st in
         let found := rescan && (0 <=? mi) && (ei <? Z.of_nat (length cs))
                      && match nth_cmd cs mi, nth_cmd cs ei with
@@ -196,8 +200,10 @@ Definition dstep (pol : policy) (cc : addr) (hasinit : bool) (attempts : nat) (f
                         end
                      && match nth_error resps (Z.to_nat mi) with Some rm => is_ok rm | None => false end in
         if found then
-          mkDrs mi ei (d_acts st1 ++ [mkAct nc ask (block ps mi ei)]) (S (d_redirects st1)) (d_delay st1) (d_results st1)
-        else if hasinit && (mi <? Z.of_nat i) && (Z.of_nat i <? ei) && (0 <=? mi)
+          mkDrs mi ei (d_acts st1 ++ [mkAct nc ask (block ps mi ei)])
+                (if is_retry then d_redirects st1 else S (d_redirects st1))
+                (if is_retry then Z.max (d_delay st1) delay else d_delay st1) (d_results st1)
+        else if hasinit && (mi <? Z.of_nat i) && (Z.of_nat i <=? ei) && (0 <=? mi)
                 && match nth_cmd cs mi with Some cm_mi => is_multi cm_mi | None => false end
         then mkDrs mi ei (d_acts st1) (d_redirects st1) (d_delay st1) (d_results st1)
         else
@@ -231,7 +237,7 @@ Definition do_group (pol : policy) (srv : servers) (hasinit : bool) (attempts : 
       match rg_cmds g with
       | [] => st
       | ps =>
-        let '(rs, cn) := exchange_on srv (r_cnt st) ps in
+        let '(rs, cn) := exchange_on srv a (r_cnt st) ps in
         let d := doresultfn pol a hasinit attempts fl ps rs (r_acts st) (r_redirects st) (r_delay st) (r_results st) in
         mkRstate (d_acts d) (d_redirects d) (d_delay d) (d_results d) cn
                  (r_sends st ++ [mkWsend a false (map Some ps)])
@@ -239,7 +245,7 @@ Definition do_group (pol : policy) (srv : servers) (hasinit : bool) (attempts : 
   match rg_asks g with
   | [] => st1
   | ps =>
-    let '(rs, cn) := exchange_on srv (r_cnt st1) ps in
+    let '(rs, cn) := exchange_on srv a (r_cnt st1) ps in
     let d := doresultfn pol a hasinit attempts fl ps rs (r_acts st1) (r_redirects st1) (r_delay st1) (r_results st1) in
     mkRstate (d_acts d) (d_redirects d) (d_delay d) (d_results d) cn
              (r_sends st1 ++ [mkWsend a true (asking_wire ps false)])
@@ -291,4 +297,4 @@ Fixpoint rounds (fuel : nat) (c : bcfg) (srv : servers) (hasinit : bool) (k : na
   end.
 
 Definition cluster_domulti (fuel : nat) (c : bcfg) (srv : servers) (hasinit : bool) (m : rmap) :=
-  rounds fuel c srv hasinit 0 m 1 0 [] (fun _ => O) [].
+  rounds fuel c srv hasinit 0 m 1 0 [] (fun _ _ => O) [].
